@@ -219,7 +219,15 @@ func c11guard(c *an.Ctx, gs []guarded) {
 				}
 				mk := objKey(p, info, recv)
 				if !mutexes[mk] {
-					return
+					// a local that holds the pointer to the mutex (gmx := set.gmx)
+					if id, ok := an.Unparen(recv).(*ast.Ident); ok {
+						if o := an.ObjOf(info, id); o != nil {
+							mk = st.Get("m" + aliasReg(o))
+						}
+					}
+					if !mutexes[mk] {
+						return
+					}
 				}
 				switch name := an.CalleeName(info, call); {
 				case strings.HasSuffix(name, ").Lock"):
@@ -253,10 +261,19 @@ func c11guard(c *an.Ctx, gs []guarded) {
 				if o == nil {
 					return
 				}
+				st.Set("m"+aliasReg(o), "")
 				if rhs != nil {
 					if _, isG := byObj[objKey(p, info, rhs)]; isG {
 						st.Set(aliasReg(o), objKey(p, info, rhs))
 						return
+					}
+					// a copy of a *pointer* to a mutex is the same mutex
+					if mk := objKey(p, info, rhs); mutexes[mk] {
+						if tv, has := info.Types[rhs]; has && tv.Type != nil {
+							if _, isPtr := tv.Type.Underlying().(*types.Pointer); isPtr {
+								st.Set("m"+aliasReg(o), mk)
+							}
+						}
 					}
 				}
 				st.Set(aliasReg(o), "")
